@@ -427,6 +427,12 @@ impl SaleWorld {
         let q = |app: &App, m: Value| -> Option<Value> { app.wrap().query_wasm_smart::<Value>(wl.clone(), &m).ok() };
         let cfg = q(&self.app, json!({"config": {}}))?;
         let active = cfg.get("is_active")?.as_bool()?;
+        // the minter parses the answer into its own typed ConfigResponse (deny_unknown_fields): the flex
+        // family has no per_address_limit, the others require it; the other family's answer does not parse,
+        // i.e. for this minter the Config query fails
+        if self.v.flex == cfg.get("per_address_limit").is_some() {
+            return None;
+        }
         let price: u128 = cfg["mint_price"]["amount"].as_str()?.parse().ok()?;
         let denom = self.denoms.id(cfg["mint_price"]["denom"].as_str()?);
         let limit = cfg.get("per_address_limit").and_then(|x| x.as_u64()).unwrap_or(0);
@@ -438,7 +444,19 @@ impl SaleWorld {
             .unwrap_or(false);
         let stage_id = q(&self.app, json!({"active_stage_id": {}})).and_then(|v| v.as_u64());
         let stage_limit: Option<Option<u64>> = match stage_id {
+            // the minter parses the answer into its family's typed StageResponse (deny_unknown_fields):
+            // tiered-whitelist has member_count, tiered-whitelist-merkletree has merkle_root, the flex
+            // stage has no per_address_limit; an answer of another family is a failed query for this minter
             Some(id) if id >= 1 => q(&self.app, json!({"stage": {"stage_id": id - 1}}))
+                .filter(|v| {
+                    if self.v.merkle {
+                        serde_json::from_value::<tiered_whitelist_merkletree::msg::StageResponse>(v.clone()).is_ok()
+                    } else if self.v.flex {
+                        serde_json::from_value::<sg_tiered_whitelist_flex::msg::StageResponse>(v.clone()).is_ok()
+                    } else {
+                        serde_json::from_value::<sg_tiered_whitelist::msg::StageResponse>(v.clone()).is_ok()
+                    }
+                })
                 .map(|v| v["stage"]["mint_count_limit"].as_u64()),
             _ => None,
         };
@@ -803,6 +821,12 @@ impl SaleWorld {
         let env = format!("(mkEnv {} {} {} {})", now, sender_id, self.coq_funds(&funds), minter_id);
         let mut new_view: Option<String> = None;
         let mut pre_positions: Vec<(u32, u32)> = vec![];
+        // a failed Mint / MintTo carries no token: the model is then asked about a pick that WOULD be legal
+        // (the first table entry), so that it has to fail for a reason of its own rather than on the pick
+        let first_id: u64 = match op {
+            Op::Mint { .. } | Op::MintM { .. } | Op::MintTo { .. } => self.positions().first().map(|p| p.1 as u64).unwrap_or(0),
+            _ => 0,
+        };
         let res = match op {
             Op::Mint { .. } => {
                 if self.v.merkle {
@@ -891,7 +915,7 @@ impl SaleWorld {
                 }
             }
         }
-        let choice = minted.as_ref().map(|m| m.0).unwrap_or(0);
+        let choice = minted.as_ref().map(|m| m.0).unwrap_or(first_id);
         let coq_op = match op {
             Op::Mint { .. } => format!("(OMint None false None {})", choice),
             Op::MintM { stage, proof, allocation, .. } => format!(
